@@ -2,11 +2,11 @@
 # tools/rerefactor.sh <pid>... : re-validate kept harmless refactorings (/verif/refactors/<pid>/patch.diff) against
 # /repo's current HEAD with a private copy of /verif: the check must print OK.
 export GOFLAGS=-mod=mod GOPROXY=off GOSUMDB=off GOTOOLCHAIN=local
-pv=/tmp/reref_verif
+pv=/tmp/reref_verif_$$
 mkdir -p $pv
 rsync -a --delete --exclude .git --exclude build --exclude 'coq/cases' /verif/ $pv/
 for pid in "$@"; do
-  wt=/tmp/wtrf_$pid
+  wt=/tmp/wtrf_${pid}_$$
   git -C /repo worktree remove --force $wt >/dev/null 2>&1
   git -C /repo worktree add --detach $wt HEAD -q >/dev/null 2>&1
   if ! git -C $wt apply /verif/refactors/$pid/patch.diff 2>/dev/null; then
